@@ -32,7 +32,8 @@ enum Cell {
 
 /// A row as stored in `Layer::lines[y].chars`. `pad`: 0 = as is (chars.len() may be < width), 1 = the rest of the
 /// row is filled with short cells (full-width row, no terminator), 2 = the rest is allocated as invisible cells
-/// (trailing invisible run inside the vector), 3 = rest invisible except a long cell in the last column (full-width row with a gap).
+/// (trailing invisible run inside the vector), 3 = rest invisible except a long cell in the last column (full-width row with a gap),
+/// 4 = as 2 plus two visible cells stored beyond the layer width (over-long `Line::chars`, clipped by `Layer::get_char`).
 #[derive(Clone, Debug, Hash, PartialEq, Eq, Serialize, Deserialize)]
 struct Row {
     cells: Vec<Cell>,
@@ -384,7 +385,7 @@ fn resolve_cell(c: &Cell, slots: &[usize]) -> CellObs {
     }
 }
 
-/// the cells of a row as they are stored in `Line::chars` (length <= w)
+/// the cells of a row as they are stored in `Line::chars` (length <= w, except pad 4: w + 2)
 fn row_cells(r: &Row, w: usize, slots: &[usize]) -> Vec<CellObs> {
     let mut v: Vec<CellObs> = r.cells.iter().take(w).map(|c| resolve_cell(c, slots)).collect();
     match r.pad {
@@ -395,6 +396,12 @@ fn row_cells(r: &Row, w: usize, slots: &[usize]) -> Vec<CellObs> {
                 v.resize(w, None);
                 v[w - 1] = Some((0x2588, 300, TRANSPARENT, 1, 0));
             }
+        }
+        4 => {
+            // over-long line: two visible cells stored beyond the layer width (not part of the layer: get_char clips)
+            v.resize(w, None);
+            v.push(Some(('!' as u32, 4, 1, 0, 0)));
+            v.push(Some((0x2591, 256, 1, 0, 0)));
         }
         _ => {}
     }
@@ -435,7 +442,7 @@ fn expected(doc: &Doc) -> Result<Obs, String> {
         let lines = layer_lines(l, &slots);
         let mut cells = vec![None; w * h];
         for (y, line) in lines.iter().enumerate() {
-            for (x, c) in line.iter().enumerate() {
+            for (x, c) in line.iter().enumerate().take(w) {
                 if let Some(v) = c {
                     if char::from_u32(v.0).is_none() {
                         return Err(format!("not a scalar value: {:#x}", v.0));
@@ -822,6 +829,8 @@ fn diff(exp: &Obs, got: &Obs, out: &mut Vec<(String, String)>) {
             "custom"
         }
     };
+    // meta data keys only distinguish the "colours equal the DOS default" shortcut of the writer
+    let mclass = |p: &PalObs| if pclass(p) == "dos_colours" { "dos_colours" } else { "custom" };
     if exp.palette.colors.len() != got.palette.colors.len() {
         push(format!("palette.len|{}", pclass(&exp.palette)), format!("palette of {} colours became {}", exp.palette.colors.len(), got.palette.colors.len()));
     } else {
@@ -829,7 +838,7 @@ fn diff(exp: &Obs, got: &Obs, out: &mut Vec<(String, String)>) {
             push(format!("palette.color|{}", pclass(&exp.palette)), format!("palette colour {i}: {:?} became {:?}", exp.palette.colors[i].0, got.palette.colors[i].0));
         }
         if let Some(i) = (0..exp.palette.colors.len()).find(|i| exp.palette.colors[*i].1 != got.palette.colors[*i].1) {
-            push(format!("palette.color_name|{}", pclass(&exp.palette)), format!("palette colour {i}: name {:?} became {:?}", exp.palette.colors[i].1, got.palette.colors[i].1));
+            push(format!("palette.color_name|{}", mclass(&exp.palette)), format!("palette colour {i}: name {:?} became {:?}", exp.palette.colors[i].1, got.palette.colors[i].1));
         }
     }
     for (name, e, g) in [
@@ -838,7 +847,7 @@ fn diff(exp: &Obs, got: &Obs, out: &mut Vec<(String, String)>) {
         ("palette.description", &exp.palette.description, &got.palette.description),
     ] {
         if e != g {
-            push(format!("{name}|{}", pclass(&exp.palette)), format!("{name} {} became {}", short(e), short(g)));
+            push(format!("{name}|{}", mclass(&exp.palette)), format!("{name} {} became {}", short(e), short(g)));
         }
     }
 }
@@ -966,6 +975,14 @@ fn check(doc: &Doc) -> Verdict {
 
 /// oversized documents (outside the quantifier): reported in the class histogram only
 fn check_info(doc: &Doc) -> Verdict {
+    let v = check_info_inner(doc);
+    if std::env::var_os("C07_INFO_PRINT").is_some() {
+        eprintln!("oversize_info {}: {v:?}", doc.tag);
+    }
+    v
+}
+
+fn check_info_inner(doc: &Doc) -> Verdict {
     match icyv::panics::guarded(|| roundtrip(doc)) {
         Ok(Ok((_, d))) => match d.first() {
             None => Verdict::pass(false, format!("info:{}:roundtrip_ok", doc.tag)),
@@ -1031,7 +1048,7 @@ fn cell() -> BoxedStrategy<Cell> {
 }
 
 fn row(max_len: usize) -> BoxedStrategy<Row> {
-    (vec(cell(), 0..=max_len), prop_oneof![5 => Just(0u8), 2 => Just(1u8), 2 => Just(2u8), 1 => Just(3u8)]).prop_map(|(cells, pad)| Row { cells, pad }).boxed()
+    (vec(cell(), 0..=max_len), prop_oneof![10 => Just(0u8), 4 => Just(1u8), 4 => Just(2u8), 2 => Just(3u8), 1 => Just(4u8)]).prop_map(|(cells, pad)| Row { cells, pad }).boxed()
 }
 
 fn uni_string(max: usize) -> BoxedStrategy<String> {
@@ -1319,6 +1336,23 @@ fn row_case(i: u64) -> Doc {
     small_doc(vec![plain_layer("bg", 4, 2, vec![Row { cells: vec![S_CELL], pad: 0 }]), plain_layer("rows", w as u16, 2, rows)], "")
 }
 
+/// boundary values of every cell field, full product, on a one-cell layer (+ the same font page as the layer's default page)
+const CV_CH: [u32; 6] = [0x41, 255, 256, 0xD7FF, 0xE000, 0x10_FFFF];
+const CV_COL: [u32; 5] = [7, 255, 256, TRANSPARENT, u32::MAX];
+const CV_FP: [u16; 4] = [0, 16384, 32768, 49152]; // selectors of the slots 0, 255, 256, 300
+const CV_ATTR: [u16; 3] = [0, 0x3FF, 0x200];
+const CELL_VALUE_CASES: u64 = 6 * 5 * 5 * 4 * 3;
+fn cell_value_case(i: u64) -> Doc {
+    let (c, f, b, p, a) = (i % 6, (i / 6) % 5, (i / 30) % 5, (i / 150) % 4, (i / 600) % 3);
+    let cell = Cell::V(CV_CH[c as usize], CV_COL[f as usize], CV_COL[b as usize], CV_ATTR[a as usize], CV_FP[p as usize]);
+    let mut l = plain_layer("v", 2, 1, vec![Row { cells: vec![cell], pad: 0 }]);
+    l.fp = CV_FP[p as usize];
+    let mut d = small_doc(vec![plain_layer("bg", 1, 1, Vec::new()), l], "");
+    let f = |slot: u16| FontM { slot, kind: FontKind::Custom { name: format!("f{slot}"), w: 8, h: 4, big: slot == 300, seed: slot as u32 } };
+    d.fonts = vec![f(255), f(256), f(300)];
+    d
+}
+
 fn oversize_case(i: u64) -> Doc {
     let big_rows = |w: usize, h: usize| (0..h).map(|y| Row { cells: (0..w).map(|x| if (x + y) % 17 == 0 { Cell::I } else { Cell::V(0x2500 + ((x * 7 + y) % 200) as u32, 300, 7, 0, 0) }).collect(), pad: 0 }).collect::<Vec<Row>>();
     let mut l = plain_layer("oversize", 700, 300, Vec::new());
@@ -1351,21 +1385,23 @@ fn main() {
          from independent components: Unicode title (empty, ASCII, any scalars incl. NUL/newline/4-byte), role Normal or Image (one sixel at (0,0), 0..=48 px wide/high, exact RGBA data, any scales), mode, optional colour tag, \
          all 32 flag combinations, transparency, offsets -50..=50, default font page, rows stored as Line::chars of length <= width with cells invisible (canonical) / short / long (char up to U+10FFFF without surrogates, \
          colours >255, TRANSPARENT_COLOR, rgb-encoded, font pages >255), attribute bits 0..=9, row forms: empty, partial, padded to full width with short cells, with an allocated trailing invisible run, \
-         invisible gap + long cell in the last column; layer size = longest row + extra, with forced 0-width, 0-height, 200x120, 200 x n, n x 120 layers at ~2% each; lines allocated fully or only as needed; \
+         invisible gap + long cell in the last column, over-long Line::chars (cells stored beyond the width, which Layer::get_char clips); layer size = longest row + extra, with forced 0-width, 0-height (4% of layers each), 200x120, 200 x n, n x 120 (2% each) layers; 1 layer in 8 is an Image layer; lines allocated fully or only as needed; \
          palette DOS / DOS colours with other meta data / custom 1..=300 colours with names; font slot 0 (built-in or custom 1..=8 x 1..=32, 256/512 glyphs) plus 0..=4 further slots in 1..=300 (biased to 255/256/300); \
          font pages of cells and layers are selectors into the existing slots; SAUCE absent or with title/author/group/0..=4 comments/flags. \
          boundary part: one forced extreme per case (dense 200x120 layer, six 200x120 layers, zero+max layers, 256/257/299/300 colours, ~300 font slots, 255 comments, buffer 200x120). \
          layer_flags (exhaustive): role x mode x 32 flag sets x colour tag. row_shapes (exhaustive): every row over {invisible,short,long}^w, w=0..=4, x 4 following rows x 2 storage forms. \
+         cell_values (exhaustive): product of boundary values char {0x41,255,256,0xD7FF,0xE000,0x10FFFF} x fg,bg {7,255,256,TRANSPARENT,0xFFFFFFFF} x font page {0,255,256,300} x attr {0,0x3FF,0x200}. \
          Non-trivial: >= 2 layers AND >= 1 long-form cell on a Normal layer AND >= 1 row terminator (a row of a Normal layer whose visible length is below the layer width); distinct by hash of the model.",
     );
     eng.assume("font slot 0 always exists (Buffer::get_font_dimensions indexes it unconditionally; a document without it cannot be rendered or saved by any path)");
     eng.assume("Image layers carry exactly one sixel at position (0,0) with width*height*4 bytes and no cells; Normal layers carry no sixels (the format document defines nothing else)");
-    eng.assume("invisible cells are exactly AttributedChar::invisible(); attribute bits 10..=13 unused; cells lie inside the layer (Line::chars no longer than the width, no more lines than the height)");
+    eng.assume("invisible cells are exactly AttributedChar::invisible(); attribute bits 10..=13 unused; no more lines than the layer height; cells stored beyond the layer width are not part of the document (Layer::get_char reports them invisible)");
     eng.assume("palette meta data and colour names are single-line text without leading/trailing blanks; SAUCE strings are CP437-representable, compared after trimming trailing blanks; SAUCE ice flag expected = (buffer ice mode == Ice); SAUCE date, data type, font name and size fields are derived on save and not compared");
     eng.assume("font type (BuiltIn/Custom), file path, checksums and glyph entries beyond `length` are not part of a font slot's content");
 
     eng.enumerated(PartCfg::new("layer_flags", 0, 0).exhaustive(true), FLAG_CASES, flag_case, check);
     eng.enumerated(PartCfg::new("row_shapes", 0, 0).exhaustive(true), ROW_CASES, row_case, check);
+    eng.enumerated(PartCfg::new("cell_values", 0, 0).exhaustive(true), CELL_VALUE_CASES, cell_value_case, check);
     eng.generated(PartCfg::new("documents", 160_000, 2_400_000), documents, check);
     eng.generated(PartCfg::new("boundary", 240, 8_000).shrink_budget(300), boundary, check);
     let info = if eng.is_thorough() { 3 } else { 0 };
